@@ -199,7 +199,7 @@ def real_events(run: Run, count: int) -> list[dict[str, Any]]:
     evs: list[dict[str, Any]] = []
 
     def cv(ec: Any) -> dict[str, Any]:
-        return {"p": nat(ec.p), "a": nat(ec._a), "b": nat(ec._b), "gx": nat(ec.G[0]), "gy": nat(ec.G[1]), "n": nat(ec.n), "h": ec.cofactor}
+        return {"p": nat(ec.p), "a": nat(ec._a), "b": nat(ec._b), "gx": nat(ec.G[0]), "gy": nat(ec.G[1]), "n": nat(ec.n), "h": nat(ec.cofactor)}
 
     # the BIP's own vectors pin the specification (DESIGN 2.3)
     c1 = cv(secp256k1)
